@@ -44,6 +44,10 @@ func (j *JSONParser) Init(b *bytes.Buffer) bool {
 		}
 
 		offset = int(jerr.Offset)
+		if offset < 1 {
+			// nothing was read (empty document): no JSON front matter
+			return false
+		}
 
 		m = make(map[string]interface{})
 		err = json.Unmarshal(b.Next(offset-1), &m)
